@@ -160,6 +160,17 @@ impl E {
 /// Rendering style: only spellings the language documents as equivalent.
 pub struct Style<'a> {
     pub rng: Option<&'a mut Rng>,
+    /// also put optional blanks between a unary operator and its operand
+    pub unary_blanks: bool,
+}
+
+impl<'a> Style<'a> {
+    pub fn plain() -> Style<'a> {
+        Style { rng: None, unary_blanks: false }
+    }
+    pub fn with(rng: &'a mut Rng) -> Style<'a> {
+        Style { rng: Some(rng), unary_blanks: false }
+    }
 }
 
 fn sp(st: &mut Style) -> &'static str {
@@ -199,10 +210,11 @@ pub fn render(e: &E, st: &mut Style) -> String {
         }
         E::Un(u, x) => {
             let inner = render(x, st);
+            let b = if st.unary_blanks { sp(st) } else { "" };
             if x.prec() < 14 {
-                format!("{}({})", u.text(), inner)
+                format!("{}{}({})", u.text(), b, inner)
             } else {
-                format!("{}{}", u.text(), inner)
+                format!("{}{}{}", u.text(), b, inner)
             }
         }
         E::Bin(op, l, r) => {
@@ -469,7 +481,7 @@ pub fn rand_tree(rng: &mut Rng, depth: u32, syms: &[String], allow_pc: bool) -> 
 /// self test: renderer/evaluator agree with Rust's own arithmetic on a few pinned cases
 pub fn selfcheck() -> Result<usize, String> {
     let env = Env::new();
-    let mut st = Style { rng: None };
+    let mut st = Style::plain();
     let cases: Vec<(E, &str, Expected)> = vec![
         (E::bin(Bin::Mul, E::un(Un::Com, E::lit(1)), E::lit(2)), "~1*2", Expected::Value(-4)),
         (E::un(Un::Com, E::bin(Bin::Mul, E::lit(1), E::lit(2))), "~(1*2)", Expected::Value(-3)),
